@@ -14,6 +14,8 @@ def _c09(tier):
     for k in range(0, 17):
         jobs.append(dict(sub="kernel", count=geo(k, 6000, 7, 40) * mult, fix=dict(k=k)))
     for k in range(0, 15):
+        jobs.append(dict(sub="sequence", count=geo(k, 3000, 7, 30) * mult, fix=dict(k2=k)))
+    for k in range(0, 15):
         jobs.append(dict(sub="compose", count=geo(k, 3000, 7, 30) * mult, fix=dict(k=k)))
     for k in range(1, 17):
         jobs.append(dict(sub="vec", count=geo(k, 4000, 7, 30) * mult, fix=dict(k=k)))
@@ -34,5 +36,5 @@ PLAN = dict(
     required_classes=dict(all=["op:rotate", "op:automorphism", "op:mul_xp_minus_one", "p<0", "p_outside_[-2nn,2nn)",
                                "aut:p==-1", "aut:p==n+1", "aut:p==n-1", "aut:negate-at-depth",
                                "aut:negamirror-at-depth", "module:FFT64", "module:NTT120",
-                               "wrapper:big", "inplace", "cfg:generic"] + ["k:%d" % k for k in range(0, 17)]),
+                               "wrapper:big", "inplace", "cfg:generic", "sequence:different-N-same-p"] + ["k:%d" % k for k in range(0, 17)]),
 )
